@@ -516,11 +516,11 @@ Proof.
   destruct (first_stop (c :: rest) (fun i => ai_status (o i)) 0 (c :: rest)); reflexivity.
 Qed.
 
-(* AF_UNSPEC walk = single-query walk over the combined outcomes *)
-Lemma host_callback2_combine names next nd f l :
-  host_callback2 names next nd f l = host_callback names next nd (ai2_combine f l).
+(* AF_UNSPEC, pinned code: the walk is the single-query walk over ai2_combine_pinned *)
+Lemma host_callback2_combine_pinned names next nd f l :
+  host_callback2 false names next nd f l = host_callback names next nd (ai2_combine_pinned f l).
 Proof.
-  unfold host_callback2, host_callback, ai2_combine.
+  unfold host_callback2, host_callback, ai2_combine_pinned. cbn [andb].
   destruct ((ao_status l =? ARES_EDESTRUCTION) || (ao_status l =? ARES_ECANCELLED))%Z eqn:Hc.
   - rewrite Hc. reflexivity.
   - destruct (has_addr f || has_addr l) eqn:Hn.
@@ -528,25 +528,138 @@ Proof.
     + rewrite Hc. apply orb_false_iff in Hn. destruct Hn as (_ & Hl). unfold has_addr in Hl. rewrite Hl. reflexivity.
 Qed.
 
-Lemma ai2_loop_combine names o : forall fuel next nd sent,
-  ai2_loop fuel names o next nd sent
-  = ai_loop fuel names (fun i => ai2_combine (fst (o i)) (snd (o i))) next nd sent.
+Lemma ai2_loop_combine_pinned names o : forall fuel next nd sent,
+  ai2_loop false fuel names o next nd sent
+  = ai_loop fuel names (fun i => ai2_combine_pinned (fst (o i)) (snd (o i))) next nd sent.
 Proof.
   induction fuel as [|f IH]; intros next nd sent; [reflexivity|].
-  cbn [ai2_loop ai_loop]. rewrite host_callback2_combine.
-  destruct (host_callback names next nd (ai2_combine (fst (o (Init.Nat.pred next))) (snd (o (Init.Nat.pred next))))) as [r| |];
+  cbn [ai2_loop ai_loop]. rewrite host_callback2_combine_pinned.
+  destruct (host_callback names next nd (ai2_combine_pinned (fst (o (Init.Nat.pred next))) (snd (o (Init.Nat.pred next))))) as [r| |];
     cbn [bind]; try reflexivity.
   destruct (fst r); [reflexivity|]. destruct (nth_error names next); [apply IH|reflexivity].
 Qed.
 
+Lemma ai2_run_pinned_correct names o :
+  names <> [] ->
+  ai2_run false names o = Ok (spec_queried names (fun i => ai_status (ai2_combine_pinned (fst (o i)) (snd (o i)))),
+                              spec_status names (fun i => ai_status (ai2_combine_pinned (fst (o i)) (snd (o i))))).
+Proof.
+  intros Hne. rewrite <- (ai_run_correct names (fun i => ai2_combine_pinned (fst (o i)) (snd (o i))) Hne).
+  unfold ai2_run, ai_run. destruct names as [|n r]; [reflexivity|]. apply ai2_loop_combine_pinned.
+Qed.
+
+(* AF_UNSPEC, patched code *)
+Ltac zneq := repeat match goal with
+  | H : ?a <> ?b |- _ => apply Z.eqb_neq in H
+  end.
+Ltac zsimp := repeat progress (cbn; repeat match goal with
+  | H : Z.eqb ?a ?b = false |- context [Z.eqb ?a ?b] => rewrite H
+  end).
+Ltac zcase x K := destruct (Z.eq_dec x K) as [?|?]; [subst x|].
+
+Lemma ai2_step names i c nd f l :
+  nth_error names i = Some c ->
+  let st := ai_status (ai2_combine (single_label c) f l) in
+  let nd1 := if first_nodata f then S nd else nd in
+  let nd' := if Z.eqb (ao_status l) ARES_ENODATA || (Z.eqb (ao_status l) ARES_SUCCESS && negb (ao_addr l)) then S nd1 else nd1 in
+  (soft names i st = false -> exists k, host_callback2 true names (S i) nd f l = Ok (AiEnd st, k)) /\
+  (soft names i st = true ->
+     host_callback2 true names (S i) nd f l = Ok (AiNext (if (0 <? nd')%nat then ARES_ENODATA else st), nd') /\
+     (0 <? nd')%nat = ((0 <? nd)%nat || Z.eqb st ARES_ENODATA)).
+Proof.
+  intros Hc. destruct f as [sf af]. destruct l as [sl al].
+  unfold host_callback2, ai2_combine, has_addr, first_nodata, soft. unfold ai_status.
+  cbn [ao_status ao_addr andb]. rewrite Hc. rewrite label_cnt_single.
+  zcase sl ARES_SUCCESS; [|zcase sl ARES_EDESTRUCTION; [|zcase sl ARES_ECANCELLED; [|zcase sl ARES_ENODATA; [|zcase sl ARES_ENOTFOUND;
+    [|zcase sl ARES_ESERVFAIL; [|zcase sl ARES_EREFUSED]]]]]];
+  (zcase sf ARES_SUCCESS; [|zcase sf ARES_ENODATA]); zneq;
+  destruct af; destruct al; destruct (single_label c);
+  zsimp; (split; [intros Hs; first [discriminate|eexists; reflexivity]
+               |intros Hs; first [discriminate|split; [reflexivity|destruct nd; reflexivity]]]).
+Qed.
+
+Lemma ai2_loop_correct names o : forall rest pre c nd fuel,
+  names = pre ++ c :: rest ->
+  (length rest < fuel)%nat ->
+  ((0 <? nd)%nat = nodata_in (fun i => ai_status (ai2_combine (cand_single names i) (fst (o i)) (snd (o i)))) 0 (length pre)) ->
+  ai2_loop true fuel names o (S (length pre)) nd (rev (pre ++ [c]))
+  = match first_stop names (fun i => ai_status (ai2_combine (cand_single names i) (fst (o i)) (snd (o i)))) (length pre) (c :: rest) with
+    | Some k => Ok (firstn (S k) names, ai_status (ai2_combine (cand_single names k) (fst (o k)) (snd (o k))))
+    | None => Ok (names, exhausted_status true
+                    (nodata_in (fun i => ai_status (ai2_combine (cand_single names i) (fst (o i)) (snd (o i)))) 0 (length names))
+                    (ai_status (ai2_combine (cand_single names (pred (length names))) (fst (o (pred (length names)))) (snd (o (pred (length names)))))))
+    end.
+Proof.
+  set (o' := fun i => ai_status (ai2_combine (cand_single names i) (fst (o i)) (snd (o i)))).
+  assert (forall n, nodata_in o' 0 (S n) = (nodata_in o' 0 n || Z.eqb (o' n) ARES_ENODATA)) as Hsnoc.
+  { intros n. unfold nodata_in. rewrite seq_S, existsb_app. cbn [existsb Nat.add]. rewrite orb_false_r. reflexivity. }
+  induction rest as [|c' r IH]; intros pre c nd fuel Hn Hfuel Hnd.
+  - destruct fuel as [|f]; [lia|]. cbn [ai2_loop pred].
+    assert (nth_error names (length pre) = Some c) as Hc.
+    { rewrite Hn. rewrite nth_error_app2 by lia. rewrite Nat.sub_diag. reflexivity. }
+    destruct (ai2_step names (length pre) c nd (fst (o (length pre))) (snd (o (length pre))) Hc) as (Hend & Hnext).
+    assert (cand_single names (length pre) = single_label c) as Hcs by (unfold cand_single; rewrite Hc; reflexivity).
+    rewrite <- Hcs in Hend, Hnext. fold (o' (length pre)) in Hend, Hnext.
+    assert (nth_error names (S (length pre)) = None) as Hnone.
+    { apply nth_error_None. rewrite Hn, app_length. cbn. lia. }
+    rewrite first_stop_cons.
+    assert (pred (length names) = length pre) as Hp by (rewrite Hn, app_length; cbn; lia).
+    assert (length names = S (length pre)) as Hlen by (rewrite Hn, app_length; cbn; lia).
+    destruct (soft names (length pre) (o' (length pre))) eqn:Hs.
+    + destruct (Hnext eq_refl) as (Hhc & Hpos). rewrite Hhc. cbn [bind fst snd]. rewrite Hnone.
+      rewrite rev_involutive. rewrite <- Hn. cbn [first_stop]. f_equal. f_equal.
+      rewrite Hp, Hlen, Hsnoc, <- Hnd. rewrite Hpos. unfold exhausted_status.
+      destruct (Z.eqb (o' (length pre)) ARES_ENODATA) eqn:He.
+      * rewrite orb_true_r. reflexivity.
+      * rewrite orb_false_r. reflexivity.
+    + destruct (Hend eq_refl) as (k & Hhc). rewrite Hhc. cbn [bind fst snd].
+      rewrite rev_involutive. f_equal. f_equal. rewrite Hn. rewrite firstn_S_app. reflexivity.
+  - destruct fuel as [|f]; [lia|]. cbn [ai2_loop pred].
+    assert (nth_error names (length pre) = Some c) as Hc.
+    { rewrite Hn. rewrite nth_error_app2 by lia. rewrite Nat.sub_diag. reflexivity. }
+    destruct (ai2_step names (length pre) c nd (fst (o (length pre))) (snd (o (length pre))) Hc) as (Hend & Hnext).
+    assert (cand_single names (length pre) = single_label c) as Hcs by (unfold cand_single; rewrite Hc; reflexivity).
+    rewrite <- Hcs in Hend, Hnext. fold (o' (length pre)) in Hend, Hnext.
+    assert (nth_error names (S (length pre)) = Some c') as Hc'.
+    { rewrite Hn. rewrite nth_error_app2 by lia.
+      replace (S (length pre) - length pre)%nat with 1%nat by lia. reflexivity. }
+    rewrite first_stop_cons.
+    destruct (soft names (length pre) (o' (length pre))) eqn:Hs.
+    + destruct (Hnext eq_refl) as (Hhc & Hpos). rewrite Hhc. cbn [bind fst snd]. rewrite Hc'.
+      assert (names = (pre ++ [c]) ++ c' :: r) as Hn' by (rewrite <- app_assoc; exact Hn).
+      assert (S (length pre) = length (pre ++ [c])) as Hl by (rewrite app_length; cbn; lia).
+      rewrite Hl.
+      replace (c' :: rev (pre ++ [c])) with (rev ((pre ++ [c]) ++ [c'])) by (rewrite rev_app_distr; reflexivity).
+      cbn [length] in Hfuel.
+      apply IH; [exact Hn'|lia|].
+      rewrite <- Hl, Hsnoc, <- Hnd. exact Hpos.
+    + destruct (Hend eq_refl) as (k & Hhc). rewrite Hhc. cbn [bind fst snd].
+      rewrite rev_involutive. f_equal. f_equal. rewrite Hn. rewrite firstn_S_app. reflexivity.
+Qed.
+
 Lemma ai2_run_correct names o :
   names <> [] ->
-  ai2_run names o = Ok (spec_queried names (fun i => ai_status (ai2_combine (fst (o i)) (snd (o i)))),
-                        spec_status names (fun i => ai_status (ai2_combine (fst (o i)) (snd (o i))))).
+  ai2_run true names o =
+  Ok (spec_queried names (fun i => ai_status (ai2_combine (cand_single names i) (fst (o i)) (snd (o i)))),
+      spec_status names (fun i => ai_status (ai2_combine (cand_single names i) (fst (o i)) (snd (o i))))).
 Proof.
-  intros Hne. rewrite <- (ai_run_correct names (fun i => ai2_combine (fst (o i)) (snd (o i))) Hne).
-  unfold ai2_run, ai_run. destruct names as [|n r]; [reflexivity|]. apply ai2_loop_combine.
+  intros Hne. destruct names as [|c rest]; [congruence|].
+  unfold ai2_run.
+  pose proof (ai2_loop_correct (c :: rest) o rest [] c 0 (length (c :: rest)) eq_refl) as H.
+  cbn [length app rev] in H. cbn [length]. rewrite H; [|lia|reflexivity].
+  unfold spec_queried, spec_status, exhausted_status, nodata_in.
+  destruct (first_stop (c :: rest) _ 0 (c :: rest)); reflexivity.
 Qed.
+
+(* witness: one single-label candidate "h", the A query says no data first, the AAAA query says
+   not found last: the pinned code reports not-found, the rule (and the patched code) no-data *)
+Definition unspec_outcomes (i : nat) : ai_outcome * ai_outcome :=
+  ({| ao_status := ARES_ENODATA; ao_addr := false |}, {| ao_status := ARES_ENOTFOUND; ao_addr := false |}).
+
+Lemma ai2_pinned_refuted :
+  ai2_run false [[104%N]] unspec_outcomes = Ok ([[104%N]], ARES_ENOTFOUND) /\
+  ai2_run true [[104%N]] unspec_outcomes = Ok ([[104%N]], ARES_ENODATA).
+Proof. split; vm_compute; reflexivity. Qed.
 
 (* ------------------------------------------------------------------------------------ *)
 (* Non-vacuity: a non-trivial configuration exercising both positions of the as-is name   *)
